@@ -238,6 +238,53 @@ type bytesBuf struct{ b []byte }
 
 func (w *bytesBuf) Write(p []byte) (int, error) { w.b = append(w.b, p...); return len(p), nil }
 
+// ---------- a subscriber whose connection is broken ----------
+// The server's listener is wrapped: on the connection chosen by the harness, writes of Event
+// frames fail with a (non-EOF) write error while the fault is armed — what a peer that
+// stopped reading / a half-dead TCP connection gives.  signalHandler.UpdateSignal then
+// delivers to the healthy subscribers and reports the error to the directory's signal helper.
+type faultCtl struct {
+	accepted int32 // connections accepted so far
+	broken   int32 // index of the connection whose event writes fail (-1: none)
+	budget   int32 // number of event writes still to fail (< 0: all of them)
+	failed   int32 // event writes that failed
+}
+
+type faultListener struct {
+	inner net.Listener
+	ctl   *faultCtl
+}
+
+func (l faultListener) Accept() (net.Stream, error) {
+	s, err := l.inner.Accept()
+	if err != nil {
+		return s, err
+	}
+	idx := atomic.AddInt32(&l.ctl.accepted, 1) - 1
+	return &faultStream{Stream: s, idx: idx, ctl: l.ctl}, nil
+}
+func (l faultListener) Close() error { return l.inner.Close() }
+
+type faultStream struct {
+	net.Stream
+	idx int32
+	ctl *faultCtl
+}
+
+func (s *faultStream) Write(p []byte) (int, error) {
+	// net.Message.Write hands over one buffer per frame; byte 14 of the header is the type
+	if s.idx == atomic.LoadInt32(&s.ctl.broken) && len(p) >= net.HeaderSize && p[14] == net.Event {
+		if b := atomic.LoadInt32(&s.ctl.budget); b != 0 {
+			if b > 0 {
+				atomic.AddInt32(&s.ctl.budget, -1)
+			}
+			atomic.AddInt32(&s.ctl.failed, 1)
+			return 0, fmt.Errorf("write unix: broken pipe")
+		}
+	}
+	return s.Stream.Write(p)
+}
+
 type script struct {
 	tid   int
 	local bool
@@ -299,14 +346,22 @@ func genScripts(rng *hx.Rng) []script {
 }
 
 func oneHistory(rng *hx.Rng) (h hist, err error) {
+	var brokenSubs []*remoteClient
+	defer func() {
+		for _, b := range brokenSubs {
+			b.ep.Close()
+		}
+	}()
 	addr := util.NewUnixAddr()
 	rec := &recorder{tids: map[int]int{}, addr: addr}
 	vd := directory.VerifNewDirectory()
 	ns := &recNS{inner: vd.Namespace(addr), rec: rec}
-	listener, err := net.Listen(addr)
+	inner, err := net.Listen(addr)
 	if err != nil {
 		return h, err
 	}
+	ctl := &faultCtl{broken: -1}
+	listener := faultListener{inner: inner, ctl: ctl}
 	srv, err := bus.NewServer(listener, bus.Yes{}, ns, vd.Object())
 	if err != nil {
 		listener.Close()
@@ -325,6 +380,45 @@ func oneHistory(rng *hx.Rng) (h hist, err error) {
 		os.Remove(strings.TrimPrefix(addr, "unix://"))
 	}()
 
+	// fault plan: in one history out of three a second subscriber has a broken connection —
+	// for every event, or for the first one or two only (the caller's retry then meets a
+	// healthy bus); it subscribes before or after the healthy subscriber
+	faultMode, brokenFirst := 0, rng.Bool()
+	if rng.Chance(0.34) {
+		faultMode = 1 + rng.Intn(3) // 1: every event; 2, 3: the first 1, 2 events
+	}
+	subscribeBroken := func() error {
+		if faultMode == 0 {
+			return nil
+		}
+		bs, err := dialDirectory(addr)
+		if err != nil {
+			return fmt.Errorf("broken subscriber: %v", err)
+		}
+		// dialDirectory made a round trip: the connection is the last one accepted
+		idx := atomic.LoadInt32(&ctl.accepted) - 1
+		bobj := bus.MakeObject(bs.proxy)
+		if _, err := bobj.RegisterEvent(1, 106, 7101); err != nil {
+			return fmt.Errorf("broken subscriber: %v", err)
+		}
+		if _, err := bobj.RegisterEvent(1, 107, 7102); err != nil {
+			return fmt.Errorf("broken subscriber: %v", err)
+		}
+		budget := int32(-1)
+		if faultMode > 1 {
+			budget = int32(faultMode - 1)
+		}
+		atomic.StoreInt32(&ctl.budget, budget)
+		atomic.StoreInt32(&ctl.broken, idx)
+		h.Note = fmt.Sprintf("a second subscriber's connection gives a write error for %s", map[int]string{1: "every event", 2: "the first event", 3: "the first two events"}[faultMode])
+		brokenSubs = append(brokenSubs, bs)
+		return nil
+	}
+	if brokenFirst {
+		if err := subscribeBroken(); err != nil {
+			return h, err
+		}
+	}
 	// subscriber: one raw handler sees the event frames of both signals in connection order
 	sub, err := dialDirectory(addr)
 	if err != nil {
@@ -340,6 +434,11 @@ func oneHistory(rng *hx.Rng) (h hist, err error) {
 	}
 	if _, err := obj.RegisterEvent(1, 107, 7002); err != nil {
 		return h, fmt.Errorf("subscribe serviceRemoved: %v", err)
+	}
+	if !brokenFirst {
+		if err := subscribeBroken(); err != nil {
+			return h, err
+		}
 	}
 
 	scripts := genScripts(rng)
@@ -373,6 +472,7 @@ func oneHistory(rng *hx.Rng) (h hist, err error) {
 			<-start
 			lastID := uint32(1 + s.tid) // before its first registration a client guesses a small id
 			var svcs []bus.Service
+			retried := 0
 			for k, o := range s.ops {
 				switch delays[s.tid][k] {
 				case 1:
@@ -405,19 +505,38 @@ func oneHistory(rng *hx.Rng) (h hist, err error) {
 				if o.Info.ID == 0xffffffff {
 					o.Info.ID = lastID
 				}
-				inv := rec.tick()
-				resc := make(chan dRes, 1)
-				go func() { resc <- clients[s.tid].call(rec, o) }()
-				select {
-				case r := <-resc:
-					ret := rec.tick()
-					rec.add(hOp{Tid: s.tid, Op: o, Inv: inv, Ret: ret, Res: r, Via: "remote"})
-					if o.Kind == opRegister && r.Kind == rID {
-						lastID = r.ID
+				// one remote call under a deadline; false: it did not return (the thread stops:
+				// a thread is sequential, nothing follows a call that is still pending)
+				remote := func(o dOp) (dRes, bool) {
+					inv := rec.tick()
+					resc := make(chan dRes, 1)
+					go func() { resc <- clients[s.tid].call(rec, o) }()
+					select {
+					case r := <-resc:
+						rec.add(hOp{Tid: s.tid, Op: o, Inv: inv, Ret: rec.tick(), Res: r, Via: "remote"})
+						return r, true
+					case <-time.After(3 * time.Second):
+						rec.add(hOp{Tid: s.tid, Op: o, Inv: inv, Ret: 0, Via: "remote"})
+						return dRes{}, false
 					}
-				case <-time.After(3 * time.Second):
-					rec.add(hOp{Tid: s.tid, Op: o, Inv: inv, Ret: 0, Via: "remote"})
-					return // a thread is sequential: nothing after a call that did not return
+				}
+				r, ok := remote(o)
+				if !ok {
+					return
+				}
+				if o.Kind == opRegister && r.Kind == rID {
+					lastID = r.ID
+				}
+				if faultMode != 0 && r.Kind == rErr && (o.Kind == opReady || o.Kind == opUnregister) && retried < 2 {
+					// what a client does when serviceReady / unregisterService reports an error
+					// while the bus has a sick subscriber: it looks, and tries again
+					retried++
+					if _, ok := remote(dOp{Kind: opServices}); !ok {
+						return
+					}
+					if _, ok := remote(o); !ok {
+						return
+					}
 				}
 			}
 		}(s)
@@ -425,15 +544,35 @@ func oneHistory(rng *hx.Rng) (h hist, err error) {
 	close(start)
 	fin := make(chan struct{})
 	go func() { wg.Wait(); close(fin) }()
+	finished := true
 	select {
 	case <-fin:
 	case <-time.After(8 * time.Second):
-		h.Note = "threads did not finish within 8 s"
+		finished = false
+		h.Note = strings.TrimSpace(h.Note + " threads did not finish within 8 s")
 	}
 	rec.mu.Lock()
 	h.Ops = append([]hOp{}, rec.ops...)
 	rec.closed = true
 	rec.mu.Unlock()
+	if finished {
+		// quiescent: the records the registry holds now (ownership oracle)
+		allDone := true
+		for _, o := range h.Ops {
+			if o.Ret == 0 {
+				allDone = false
+			}
+		}
+		if allDone {
+			stg, svc, _ := vd.State()
+			for _, i := range stg {
+				h.Held = append(h.Held, heldEntry{i.ServiceId, i.Name, false})
+			}
+			for _, i := range svc {
+				h.Held = append(h.Held, heldEntry{i.ServiceId, i.Name, true})
+			}
+		}
+	}
 	// collect the signals: wait for as many as the results call for (long deadline: the
 	// subscriber's reader goroutine may be scheduled late on a loaded machine), then a short
 	// grace period for surplus ones
